@@ -7,4 +7,7 @@ command -v java >/dev/null
 test -f /opt/veriftools/tla/tla2tools.jar
 /venv/bin/python -c "import sys; sys.path.insert(0, '/repo'); import utype; print('utype', utype.__version__)"
 mkdir -p evidence replay
+# jsonschema (cross-check oracle of spec/JsonSchema.tla, thorough tier of C13) comes from the offline wheelhouse; tools/xcheck_jsonschema.py
+# does the same on demand when this script was not run
+test -d _vendor/jsonschema || /venv/bin/python -m pip install -q --no-index --find-links /opt/veriftools/wheels --target _vendor jsonschema >/dev/null
 echo setup-ok
